@@ -405,8 +405,9 @@ func (s *sim) decide(t *task, site uint32) *task {
 		}
 	case sRare:
 		// cfg.P is the rarity threshold (number of reference operations that reach the site)
+		// (also at every site of a function that mentions a package-level variable)
 		if site == siteBoundary || s.refs == nil || int(site) >= len(s.refs.siteOps) ||
-			s.refs.siteOps[site] > uint32(s.cfg.P) || s.rng.intn(2) != 0 {
+			(s.refs.siteOps[site] > uint32(s.cfg.P) && rt.SiteClass[site]&16 == 0) || s.rng.intn(4) != 0 {
 			return nil
 		}
 	}
